@@ -242,8 +242,8 @@ class C08(Prop):
     quick_examples = 900
     thorough_examples = 5000
     fuzz_runs = 8000
-    floors = {'collector': 0.25, 'synthetic': 0.25, 'auth': 0.12, 'auth_basic': 0.03, 'sequence_attribute': 0.05,
-              'surrogate_text': 0.03, 'loopback_transport': 0.03}
+    floors = {'collector': 0.15, 'synthetic': 0.15, 'auth': 0.08, 'auth_basic': 0.02, 'sequence_attribute': 0.035,
+              'surrogate_text': 0.015, 'loopback_transport': 0.03}
 
     def strategy(self, tier):
         kinds = values.SCALAR_KINDS + values.CONTAINER_KINDS + ['bytes', 'badbytes', 'deque', 'slots', 'enum', 'obj', 'obj']
